@@ -220,3 +220,16 @@ package libschema
 //@   requires env != nil && args != nil && len(args.Cells) >= 3 && args.Cells[0] != nil && args.Cells[1] != nil && args.Cells[2] != nil
 //@   assert-at append [only-a-well-formed-member-is-collected] ret("getHandler", 0).Type != lisp.LError
 //@   property C14
+
+// s:in accepts only after a listed value compared equal to the input, and it
+// compares the input with the listed values in order with the language's own
+// structural equality (LVal.Equal) -- not by any field of the input alone.
+//@ func builtinAllowedValues$1
+//@   requires input != nil
+//@   ghost    neq : int
+//@   counts   neq Equal
+//@   loop 1 (rangeindex) invariant [idx] -1 <= rangeindex
+//@   loop 1 (rangeindex) invariant [one-comparison-per-listed-value-so-far] neq == old(neq) + rangeindex + 1
+//@   assert-at Equal [the-input-is-compared-with-the-current-listed-value] arg0 == input && arg1 == rangeval(1)
+//@   assert-at return~return_lisp.Nil() [accepted-only-when-a-listed-value-compared-equal] neq > old(neq) && lisp.True(ret("Equal", 0))
+//@   property C14
